@@ -26,7 +26,7 @@ func (c *Ctx) wireObs(sel func(pkgRel, typ string) bool) []core.Ob {
 
 func init() {
 	Props["C06"] = PropDef{
-		Explanation: "R-WIRESYM wire-signature symmetry; R-DISCARD; R-TLG; R-RAWREAD; R-ERRFLOW (E1-E4, deferred completion); R-POOL; T-VARLEN; T-BITFIELD; R-LENPREFIX; R-COUNT counting wrapper; T-BITSETSIZE; R-NOBUF; R-LEN reflect slice length; R-ERRFLOW E3 for the module's own decoders; T-BITFIELD shift overflow. Decided: For every net/packet field type the writer's and reader's wire signatures agree on every non-error path; length prefixes are the byte length of what follows; packed words keep their fields disjoint; byte counts include every consuming method of the counting reader; FixedBitSet allocates exactly the bytes its accessors address; errors are not swallowed. Value equality is not decided.",
+		Explanation: "R-WIRESYM wire-signature symmetry; R-DISCARD; R-TLG; R-RAWREAD; R-ERRFLOW (E1-E4, deferred completion); R-POOL; T-VARLEN; T-BITFIELD; R-LENPREFIX; R-COUNT counting wrapper; T-BITSETSIZE; R-NOBUF; R-LEN reflect slice length; R-ERRFLOW E3 for the module's own decoders; T-BITFIELD shift overflow; R-COUNT the count returned with an error includes the failing part's; R-ERRFLOW the TAG_End sentinel means absent only as the whole field, and resets the destination. Decided: For every net/packet field type the writer's and reader's wire signatures agree on every non-error path; length prefixes are the byte length of what follows; packed words keep their fields disjoint; byte counts include every consuming method of the counting reader; FixedBitSet allocates exactly the bytes its accessors address; errors are not swallowed. Value equality is not decided.",
 		Run: func(c *Ctx) []core.Ob {
 			obs := c.wireObs(func(p, t string) bool { return p == "net/packet" })
 			for _, o := range c.Discard() {
@@ -98,7 +98,7 @@ func init() {
 		},
 	}
 	Props["C13"] = PropDef{
-		Explanation: "R-WIRESYM; R-PANIC guarded-call; R-ORDER SetBlock counter; T-HEIGHTMAP save and network; R-NOALIAS loop decode targets; R-INITORDER; T-BITFIELD; T-BSINV; R-ACCEPT palette size bound; T-BSINV direct width and width-from-saved-longs. Decided: Network writer and reader of a chunk list the same wire kinds in order; height maps are length-checked and each is built from its own source; decode targets are not shared across loop iterations; no initialiser reads a registry map before init() fills it. Value preservation and the registry bijection are not decided.",
+		Explanation: "R-WIRESYM; R-PANIC guarded-call; R-ORDER SetBlock counter; T-HEIGHTMAP save and network; R-NOALIAS loop decode targets; R-INITORDER; T-BITFIELD; T-BSINV; R-ACCEPT palette size bound; T-BSINV direct width and width-from-saved-longs; R-ORDER compressing writers are closed before their bytes are handed out. Decided: Network writer and reader of a chunk list the same wire kinds in order; height maps are length-checked and each is built from its own source; decode targets are not shared across loop iterations; no initialiser reads a registry map before init() fills it. Value preservation and the registry bijection are not decided.",
 		Run: func(c *Ctx) []core.Ob {
 			names := map[string]bool{"Chunk": true, "Section": true, "BlockEntity": true, "lightData": true, "ChunkPos": true}
 			obs := c.wireObs(func(p, t string) bool { return p == "level" && names[t] })
@@ -122,7 +122,7 @@ func init() {
 		},
 	}
 	Props["C17"] = PropDef{
-		Explanation: "R-WIRESYM; R-MARSHALER; T-DISPATCH; T-ARGKIND; T-OPTFLAG; T-FIELDCOVER; T-TAGS; T-SIGNED; R-GUARD string indexes and len-k bounds; R-TRUNC; T-OPTFLAG reader side; R-NOALIAS loop decode targets; T-FMTCODE plain mode removes every match of the code pattern and cleans string arguments (R-TLG case split on the mode flag). Decided: Chat packet-field adapters are symmetric; the optional target is announced exactly when present and left nil by the reader when absent; a short form looks at every other field; converted struct variants share keys; array arguments are signed; a decode target that outlives a loop iteration is not copied out inside the loop; rendering indexes strings only behind length tests. In plain mode every match of the formatting-code pattern is replaced by nothing and string translation arguments are cleaned. Equality after a round trip and the rest of the rendered output are not decided.",
+		Explanation: "R-WIRESYM; R-MARSHALER; T-DISPATCH; T-ARGKIND; T-OPTFLAG; T-FIELDCOVER; T-TAGS; T-SIGNED; R-GUARD string indexes and len-k bounds; R-TRUNC; T-OPTFLAG reader side; R-NOALIAS loop decode targets; T-FMTCODE plain mode removes every match of the code pattern and cleans string arguments (R-TLG case split on the mode flag); R-RESET translation arguments start empty; R-PANIC optional pointer fields are dereferenced behind a nil test. Decided: Chat packet-field adapters are symmetric; the optional target is announced exactly when present and left nil by the reader when absent; a short form looks at every other field; converted struct variants share keys; array arguments are signed; a decode target that outlives a loop iteration is not copied out inside the loop; rendering indexes strings only behind length tests. In plain mode every match of the formatting-code pattern is replaced by nothing and string translation arguments are cleaned. Equality after a round trip and the rest of the rendered output are not decided.",
 		Run: func(c *Ctx) []core.Ob {
 			obs := c.wireObs(func(p, t string) bool { return p == "chat" })
 			obs = append(obs, filterObs(c.MarshalerContract(), func(o core.Ob) bool { return strings.HasPrefix(o.Key, "chat") })...)
@@ -140,13 +140,14 @@ func init() {
 			obs = append(obs, c.SignedArrayTargets("chat")...)
 			obs = append(obs, c.LoopDecodeTargets("chat")...)
 			obs = append(obs, c.PlainRenderingRemovesCodes("chat")...)
+			obs = append(obs, c.OptionalPointerDerefs("chat")...)
 			obs = append(obs, c.AppendTargetsTruncated("UnmarshalNBT", "chat")...)
 			obs = append(obs, c.AppendTargetsTruncated("UnmarshalJSON", "chat")...)
 			return obs
 		},
 	}
 	Props["C19"] = PropDef{
-		Explanation: "R-SCHEMA; R-ORDER (stable sort, dispatch order and its callers, compression switch on both ends, offline UUID origin, drain-before-close); R-POOL; R-LENPREFIX; R-ERRFLOW; R-ERRAS errors.As target form; R-POOL put-after-retain; sorted insertion (sort.Search) accepted with a strict predicate; R-TLG over package bot (a received packet id indexes the handler table only inside both bounds); R-NILMAP maps in struct fields exist where a handler assigns into them; R-POOL handler-keeps-buffer (a handler does not queue a packet around the received pooled buffer). Decided: For each gate packet the receiver scans a prefix of what the sender marshals; both ends switch compression at the same frame for every threshold value; handler tables are kept in descending priority with ties in registration order (stable sort or strict sorted insertion); dispatch stops at the first error in every caller; queued packets survive Close; packet buffers are not recycled under a queued or retained packet; errors.As looks for the form in which the module creates the error; string lengths are byte lengths. The bot's own dispatch indexes its per-id table only with ids inside it, and maps a packet handler assigns into are made by the constructor. A handler does not queue a packet around the received pooled buffer. One known finding (registry-data layout). Join completion is not decided.",
+		Explanation: "R-SCHEMA; R-ORDER (stable sort, dispatch order and its callers, compression switch on both ends, offline UUID origin, drain-before-close); R-POOL; R-LENPREFIX; R-ERRFLOW; R-ERRAS errors.As target form; R-POOL put-after-retain; sorted insertion (sort.Search) accepted with a strict predicate; R-TLG over package bot (a received packet id indexes the handler table only inside both bounds); R-NILMAP maps in struct fields exist where a handler assigns into them; R-POOL handler-keeps-buffer (a handler does not queue a packet around the received pooled buffer); R-ERRFLOW a goroutine that gives up on an I/O error keeps it. Decided: For each gate packet the receiver scans a prefix of what the sender marshals; both ends switch compression at the same frame for every threshold value; handler tables are kept in descending priority with ties in registration order (stable sort or strict sorted insertion); dispatch stops at the first error in every caller; queued packets survive Close; packet buffers are not recycled under a queued or retained packet; errors.As looks for the form in which the module creates the error; string lengths are byte lengths. The bot's own dispatch indexes its per-id table only with ids inside it, and maps a packet handler assigns into are made by the constructor. A handler does not queue a packet around the received pooled buffer. One known finding (registry-data layout). Join completion is not decided.",
 		Run: func(c *Ctx) []core.Ob {
 			obs := c.Schema()
 			obs = append(obs, c.HandlerSort()...)
@@ -158,6 +159,8 @@ func init() {
 			obs = append(obs, c.PutAfterRetain("bot")...)
 			obs = append(obs, c.FieldMapUpdates("bot/...")...)
 			obs = append(obs, c.HandlerKeepsBuffer("bot/...")...)
+			obs = append(obs, c.GoroutineErrorsKept("bot")...)
+			obs = append(obs, c.GateRepliesRead()...)
 			// the bot's own dispatch on what the peer sent: indexes and sizes taken from a received packet
 			obs = append(obs, c.TLGObs(pkgPred("bot"), pkgPred("bot"), false)...)
 			obs = append(obs, c.Pools("net/packet")...)
